@@ -115,6 +115,14 @@ def emit_state_fn(R, which, contract=None, loop_contracts=None):
         b = R.sub("R12-history-append", r'\bpdf_history\.insert\(\s*pdf_history\.end\(\)\s*,\s*pdf_values\.begin\(\)\s*,\s*pdf_values\.end\(\)\s*\)\s*;', 'pdf_hist_append(self, self->pdf_values, self->num_chains);', b)
         b = R.sub("R10-member", r'(?<![\w.>])accepted\b', 'self->accepted', b)
         R.require({"R12-history-append": 2, "R10-member": 1})
+    elif which in ("clearPDFvalues", "clearHistory"):
+        (p,) = X.cut(CPP, r'void\s+TasmanianDREAM::%s\s*\(\s*\)' % which, text)
+        chdr = "void TasmanianDREAM_%s(TasmanianDREAM *self)" % which
+        b = p.body
+        b = R.sub("R12-vector-drop", r'(?<![\w.>])(pdf_values|history|pdf_history|state)\s*=\s*std::vector<double>\(\)\s*;', r'vec_drop(self, VEC_\1);', b)
+        for mname in ("init_state", "init_values", "accepted"):
+            b = R.sub("R10-member", r'(?<![\w.>])%s\b' % mname, 'self->' + mname, b)
+        R.require({"R12-vector-drop": 1})
     else:
         raise X.ExtractionBreak("unknown state function " + which)
     X.check_leftover(chdr + b, which)
